@@ -132,9 +132,7 @@ func RunDiam(sc *Scenario) *History {
 			t := rt.NewTask(tk.ID, fmt.Sprintf("peer%d", tk.ID))
 			t.Adopt()
 			defer rt.Release()
-			if tk.StartNs > 0 {
-				time.Sleep(time.Duration(tk.StartNs))
-			}
+			time.Sleep(time.Duration(tk.StartNs + 1 + int64(tk.ID%1000)*3))
 			cl := newDiamClient(addr)
 			for i := range tk.Ops {
 				op := &tk.Ops[i]
